@@ -80,13 +80,9 @@ theorem negotiate_linkLocal (o t : OpenMsg) :
 theorem negotiate_multisession (o t : OpenMsg) :
     (negotiate o t).multisession =
       if ((o.caps.any (isMs false) && t.caps.any (isMs false)) || (o.caps.any (isMs true) && t.caps.any (isMs true))) = true then
-        if (!(o.caps.any (isMs false) && t.caps.any (isMs false))) = true then .crash
-        else match (capSet t.caps).mp with
-          | none => .crash
-          | some rm => if (capSet o.caps).mp.getD [] ≠ rm then .err 2 8 else .yes
+        if some ((capSet o.caps).mp.getD []) ≠ (capSet t.caps).mp then .err 2 8 else .yes
       else if o.caps.any (isMs false) = true then .err 2 9 else .no := by
   simp only [negotiate, negotiateSets, capSet_multisession, capSet_multisessionCisco]
-  rfl
 
 /-! ### ADD-PATH octets: the bit-mask reading and the RFC 7911 reading agree on 0..3 -/
 
